@@ -270,6 +270,31 @@ def leak_site(stderr):
     return "unknown"
 
 
+def execute_raw(argv, cwd, timeout):
+    """run a plain executable that speaks the V/S protocol"""
+    r = Run("custom", "debug")
+    res = Result(r, 0)
+    t0 = time.time()
+    try:
+        p = subprocess.run(argv, cwd=cwd, env=base_env(), stdout=subprocess.PIPE, stderr=subprocess.PIPE, timeout=timeout)
+        res.rc = p.returncode
+        out, err = p.stdout.decode("utf-8", "replace"), p.stderr.decode("utf-8", "replace")
+    except subprocess.TimeoutExpired:
+        res.timed_out = True
+        out, err = "", ""
+    res.wall = time.time() - t0
+    for line in out.splitlines():
+        try:
+            if line.startswith("V "):
+                res.vlines.append(json.loads(line[2:]))
+            elif line.startswith("S "):
+                res.summary = json.loads(line[2:])
+        except ValueError:
+            pass
+    res.stderr_tail = err[-2000:]
+    return res
+
+
 def normalise_report(text):
     t = re.sub(r"0x[0-9a-fA-F]+", "0x?", text)
     t = re.sub(r"alloc\d+", "alloc?", t)
@@ -309,6 +334,11 @@ def check_property(prop, spec, tier, seed, replay=None):
     t_start = time.time()
     ensure_links()
     os.makedirs(EVIDENCE, exist_ok=True)
+    if "custom" in spec:
+        if replay:
+            print(f"(replay for {prop}: the whole compiler-observed check is re-run; it is deterministic)")
+        violations, advisory, inconclusive, build_log, agg = spec["custom"](tier, seed)
+        return finish(prop, spec, tier, seed, violations, advisory, inconclusive, [], build_log, t_start, agg, replay=replay)
     runs = spec["runs"](tier, seed) if callable(spec["runs"]) else spec["runs"][tier]
     inconclusive = []
     notes = []
@@ -455,6 +485,20 @@ def check_property(prop, spec, tier, seed, replay=None):
             a["notes"].extend(s.get("notes", [])[:8])
             if s["cases"] == 0 and not replay and r.shards <= 1:
                 inconclusive.append(f"{r.label} executed zero cases")
+    if "also_custom" in spec and not replay:
+        # the compiler-observed half of this property (generated const items)
+        v2, a2, inc2, bl2, agg2 = spec["also_custom"](tier, seed)
+        fams = tuple(spec.get("also_families", ()))
+        for v in v2:
+            fam = v["sig"].split("|")[0]
+            if fam.startswith(fams):
+                v = dict(v)
+                v["prop"] = prop
+                violations.append(v)
+        inconclusive.extend(inc2)
+        build_log.extend(bl2)
+        for k, a in agg2.items():
+            agg[k] = a
     return finish(prop, spec, tier, seed, violations, advisory, inconclusive, notes, build_log, t_start, agg, replay=replay)
 
 
